@@ -11,6 +11,14 @@ let d = aes_dec
 let hexn s = n_of_hex s
 let hx v = hex_of_n v
 
+let ocaml_string_of (cs : cstring) : string =
+  let rec go acc = function
+    | EmptyString -> acc
+    | String (Ascii (b0, b1, b2, b3, b4, b5, b6, b7), t) ->
+      let v = List.fold_left (fun a (b, w) -> if b then a + w else a) 0 [(b0,1);(b1,2);(b2,4);(b3,8);(b4,16);(b5,32);(b6,64);(b7,128)] in
+      go (acc ^ String.make 1 (Char.chr v)) t in
+  go "" cs
+
 let parse_dev s =
   match String.split_on_char ':' s with
   | [eui; addr; appkey; nwk; app; appeui; fup; fdn; relaxed; state] ->
@@ -39,7 +47,9 @@ let dump_outbox (s : srv) eui =
 let dump_inbox (s : srv) eui =
   let l = (dt_get s.s_tab eui).ds_inbox in
   let l = List.stable_sort (fun a b -> cmp_n a.u_ts b.u_ts) l in
-  "inbox " ^ hx eui ^ " [" ^ String.concat "," (List.map (fun m -> "#" ^ hex_of_bytes m.u_data) l) ^ "]"
+  "inbox " ^ hx eui ^ " [" ^ String.concat "," (List.map (fun m ->
+    Printf.sprintf "#%s@%s:%d:%d:868.100:%s:%s" (hex_of_bytes m.u_data) (hx m.u_gweui) (int_of_z m.u_radio.r_rssi)
+      ((int_of_n m.u_radio.r_snr - 1000) * 1000) (ocaml_string_of m.u_radio.r_datr) (hx m.u_addr)) l) ^ "]"
 let dump_fb (s : srv) =
   let items = List.filter_map (fun (eui, st) ->
     match st.ds_fb with
@@ -52,8 +62,14 @@ let dump_fb (s : srv) =
 let dump_all (s : srv) euis =
   String.concat " ; " (List.concat_map (fun eui -> [dump_device s eui; dump_outbox s eui; dump_inbox s eui]) euis) ^ " ; " ^ dump_fb s
 
-let mk_radio datr rssi ch =
-  { r_rssi = z_of_int rssi; r_snr = N0; r_freq = N0; r_datr = coq_string_of datr; r_chan = n_of_int ch; r_rfch = N0; r_rx1delay = N0 }
+(* the rssi token is "rssi/snr8" (SNR in eighths of a dB, offset by 1000 to stay a natural number) *)
+let rssi_snr tok = match String.split_on_char '/' tok with
+  | [r; s] -> (int_of_string r, int_of_string s)
+  | [r] -> (int_of_string r, 60)
+  | _ -> failwith "rssi token"
+let mk_radio datr rssi_tok ch =
+  let (rssi, snr8) = rssi_snr rssi_tok in
+  { r_rssi = z_of_int rssi; r_snr = n_of_int (snr8 + 1000); r_freq = N0; r_datr = coq_string_of datr; r_chan = n_of_int ch; r_rfch = N0; r_rx1delay = N0 }
 
 type ev =
   | Init
@@ -65,12 +81,12 @@ let parse_event s =
   match String.split_on_char ',' s with
   | ["I"] -> Init
   | "R" :: raw :: gw :: ts :: datr :: rssi :: ch :: clock :: appnonce :: newaddr :: _ ->
-    let rx = { rx_raw = bytes_of_hex raw; rx_radio = mk_radio datr (int_of_string rssi) (int_of_string ch);
+    let rx = { rx_raw = bytes_of_hex raw; rx_radio = mk_radio datr rssi (int_of_string ch);
                rx_gw = { g_eui = hexn gw; g_host = N0; g_port = N0; g_clock = n_of_int (int_of_string clock); g_ver = n_of_int 2 };
                rx_ts = n_of_int (int_of_string ts) } in
     Rx (rx, (if appnonce = "" then [N0; N0; N0] else bytes_of_hex appnonce), hexn newaddr)
   | "X" :: raw :: gw :: ts :: datr :: rssi :: ch :: clock :: appnonce :: newaddr :: k :: fails :: _ ->
-    let rx = { rx_raw = bytes_of_hex raw; rx_radio = mk_radio datr (int_of_string rssi) (int_of_string ch);
+    let rx = { rx_raw = bytes_of_hex raw; rx_radio = mk_radio datr rssi (int_of_string ch);
                rx_gw = { g_eui = hexn gw; g_host = N0; g_port = N0; g_clock = n_of_int (int_of_string clock); g_ver = n_of_int 2 };
                rx_ts = n_of_int (int_of_string ts) } in
     Crash (rx, (if appnonce = "" then [N0; N0; N0] else bytes_of_hex appnonce), hexn newaddr, int_of_string k,
@@ -86,13 +102,6 @@ let out_strings outs =
   "D[" ^ String.concat ";" (List.sort compare ds) ^ "] P[" ^ String.concat ";" (List.sort compare ps) ^ "]"
 
 (* one frame handled operation by operation on the owning device's state (Model/Steps.v) *)
-let ocaml_string_of (cs : cstring) : string =
-  let rec go acc = function
-    | EmptyString -> acc
-    | String (Ascii (b0, b1, b2, b3, b4, b5, b6, b7), t) ->
-      let v = List.fold_left (fun a (b, w) -> if b then a + w else a) 0 [(b0,1);(b1,2);(b2,4);(b3,8);(b4,16);(b5,32);(b6,64);(b7,128)] in
-      go (acc ^ String.make 1 (Char.chr v)) t in
-  go "" cs
 let stepped (s : srv) rx an na k fails : srv * out list * string list =
   let failsfn i = List.mem (int_of_nat i) fails in
   let fuel = nat_of_int (if k < 0 then 100 else k) in
